@@ -7,6 +7,7 @@ from typing import Any, Dict, List
 
 from props import linkfam as lf
 from props import trace_run
+from vf import wire
 from vf.core import Ctx
 
 
@@ -38,7 +39,7 @@ def run_scenarios(ctx: Ctx, base: List[dict], drops_per: int, seeds_per: int, ex
     for sc, tr in zip(base, ref):
         n = tr['nsend']
         idx = list(range(1, n + 1))
-        if drops_per and len(idx) > drops_per:
+        if drops_per and len(idx) > drops_per and not sc.get('all_drops'):
             rng.shuffle(idx)
             idx = sorted(idx[:drops_per])
         for k in idx:
@@ -133,11 +134,55 @@ def churn(sid: str, variant: int) -> dict:
             'plans': [{'from_delay': {'node0': 100}}, {'from_delay': {'node0': 60}, 'max_delay': 30}]}
 
 
+def raising_callback(sid: str, variant: int) -> dict:
+    """Three services of one host and type; a host that joins later learns them from one reply (one batch of callbacks) and one of
+    its Added callbacks raises, once.  The browser must still end up reporting all of them (it may report some twice)."""
+    svcs = [{'name': '%s-%d._http._tcp.local.' % (n, variant), 'type': '_http._tcp.local.', 'host': 'node0', 'port': 80 + k, 'txt': ''}
+            for k, n in enumerate(['alpha', 'beta', 'gamma'])]
+    tb = [3000, 9000, 40000][variant % 3]
+    steps: list = []
+    for k, sv in enumerate(svcs):
+        steps += [{'op': 'at', 't': 50 * k}, {'op': 'reg', 'svc': sv}]
+    steps += [{'op': 'at', 't': tb}, {'op': 'host', 'name': 'node1'},
+              {'op': 'bstart', 'bid': 1, 'host': 'node1', 'types': ['_http._tcp.local.'], 'raise_at': 1 + (variant // 3) % 3},
+              {'op': 'at', 't': tb + 125000}, {'op': 'check', 'kind': 'after-registration'},
+              {'op': 'at', 't': tb + 125500}, {'op': 'unreg', 'svc': svcs[1]},
+              {'op': 'at', 't': tb + 128500}, {'op': 'check', 'kind': 'after-withdrawal'}, {'op': 'at', 't': tb + 129000}]
+    return {'id': sid, 'seed': 5000 + variant, 'hosts': ['node0', 'node1'], 'late_hosts': ['node1'], 'steps': steps, 'fault': {}}
+
+
+def busy_responder(sid: str, variant: int) -> dict:
+    """A responder with two services of two types on a link with other queriers (not library instances: their questions arrive
+    exactly when the scenario says): two questions for the first service a few milliseconds apart, the service withdrawn while
+    their answers wait in the aggregation queue, a question for the second service just before the 500 ms limit of the first.
+    A host that joins later must still learn the second service -- also when the unicast reply to its first question is the
+    datagram that is lost (every single loss is enumerated)."""
+    a = {'name': 'Copier-%d._http._tcp.local.' % variant, 'type': '_http._tcp.local.', 'host': 'node0', 'port': 80, 'txt': b'\x03a=1'.hex()}
+    b = {'name': 'Flatbed-%d._ipp._tcp.local.' % variant, 'type': '_ipp._tcp.local.', 'host': 'node0', 'port': 631, 'txt': ''}
+    d1 = [2, 5, 30][variant % 3]
+    du = [100, 200, 300][(variant // 3) % 3]
+    d3 = [470, 481, 490, 495][(variant // 9) % 4]
+    t0 = 5000
+    steps = [{'op': 'at', 't': 0}, {'op': 'reg', 'svc': a}, {'op': 'at', 't': 100}, {'op': 'reg', 'svc': b},
+             {'op': 'at', 't': t0}, {'op': 'inject', 'host': 'node0', 'qs': [[a['type'], wire.T_PTR]], 'src': '10.0.0.98'},
+             {'op': 'at', 't': t0 + d1}, {'op': 'inject', 'host': 'node0', 'qs': [[a['name'], wire.T_TXT]], 'src': '10.0.0.99'},
+             {'op': 'at', 't': t0 + du}, {'op': 'unreg', 'svc': a},
+             {'op': 'at', 't': t0 + d3}, {'op': 'inject', 'host': 'node0', 'qs': [[b['type'], wire.T_PTR]], 'src': '10.0.0.98'},
+             {'op': 'at', 't': t0 + 4000}, {'op': 'host', 'name': 'node1'},
+             {'op': 'bstart', 'bid': 1, 'host': 'node1', 'types': [b['type'], a['type']]},
+             {'op': 'at', 't': t0 + 20000}, {'op': 'check', 'kind': 'after-registration'}, {'op': 'at', 't': t0 + 20500}]
+    return {'id': sid, 'seed': 4000 + variant, 'hosts': ['node0', 'node1'], 'late_hosts': ['node1'], 'steps': steps, 'fault': {},
+            'rand': [None, 'lo', 'hi'][(variant // 36) % 3], 'all_drops': True}
+
+
 def run(ctx: Ctx) -> None:
     rng = random.Random(ctx.seed * 7919 + 7)
     base = [late_browser('c07-late-%d' % k, k) for k in range(ctx.pick(2, 6))]
     base += [churn('c07-churn-%d' % k, k) for k in range(ctx.pick(8, 16))]
     base += [warm_browser('c07-warm-%d' % k, k) for k in range(ctx.pick(6, 12))]
+    base += [raising_callback('c07-raise-%d' % k, k) for k in range(ctx.pick(6, 9))]
+    nb = ctx.pick(18, 108)
+    base += [busy_responder('c07-busy-%d' % k, (k * 7) % 108 if not ctx.thorough else k) for k in range(nb)]
     base += [lf.gen_link(rng, 'c07-%d' % k, ctx.thorough) for k in range(ctx.pick(10, 300))]
     from props import linkmodel as lm
     # binding 1: the design-level model of discovery on a lossy link (one and two losses are tolerated, three are not, and one
